@@ -144,6 +144,84 @@ def _da_case(spec, model):
     return {'confirmed': False, 'error': 'case not found'}
 
 
+def entry_adsorbate_cases():
+    """the isotherm entry points use the adsorbate's properties as they are at the time of the call: entry point == raw function
+    fed with the current cross-sectional area / molar mass / liquid density, after each of a sequence of property changes and for
+    a second adsorbate analysed in between (areas scale with the cross section, volumes with M/rho)"""
+    import pygaps
+    import pygaps.characterisation as pgc
+    from pygaps.characterisation import area_bet, area_lang, t_plots, dr_da_plots, alphas_plots
+    from scipy import constants
+    pygaps.logger.disabled = True
+    made = []
+
+    def gas(name, **props):
+        a = pygaps.Adsorbate(name, store=True, **props)
+        made.append(a)
+        return a
+
+    try:
+        g1 = gas('pgv_c14_gas_a', cross_sectional_area=0.162, molar_mass=28.0, liquid_density=0.8, saturation_pressure=1.0)
+        g2 = gas('pgv_c14_gas_b', cross_sectional_area=0.21, molar_mass=44.0, liquid_density=1.1, saturation_pressure=1.0)
+        p = numpy.linspace(0.01, 0.35, 30)
+        n_m, c = 5e-3, 120.0
+        l_bet = n_m * c * p / ((1 - p) * (1 - p + c * p))
+        l_lang = n_m * 40 * p / (1 + 40 * p)
+        pw = numpy.linspace(0.05, 0.9, 30)
+        l_t = 2e-3 + 4e-3 * (13.99 / (0.034 - numpy.log10(pw)))**0.5
+        pd_ = numpy.geomspace(1e-5, 0.1, 30)
+        l_dr = 8e-3 * numpy.exp(-(constants.gas_constant * 77.355 / 6000.0 * numpy.log(1 / pd_))**2)
+
+        def mk(ads, pp, ll):
+            return pygaps.PointIsotherm(pressure=pp, loading=ll, material='pgv_c14', adsorbate=ads, temperature=77.355, temperature_unit='K',
+                                        pressure_mode='relative', pressure_unit=None, loading_basis='molar', loading_unit='mol',
+                                        material_basis='mass', material_unit='g')
+
+        entries = {
+            'area_BET': (l_bet, p, lambda iso, a: pgc.area_BET(iso, p_limits=(0.04, 0.32))['area'],
+                         lambda a: area_bet.area_BET_raw(p, l_bet, a.properties['cross_sectional_area'], p_limits=(0.04, 0.32))[0]),
+            'area_langmuir': (l_lang, p, lambda iso, a: pgc.area_langmuir(iso, p_limits=(0.04, 0.32))['area'],
+                              lambda a: area_lang.area_langmuir_raw(p, l_lang, a.properties['cross_sectional_area'], p_limits=(0.04, 0.32))[0]),
+            't_plot': (l_t, pw, lambda iso, a: pgc.t_plot(iso, thickness_model='Harkins/Jura', t_limits=(0.3, 1.2))['results'][0]['area'],
+                       lambda a: t_plots.t_plot_raw(l_t * 1000, pw, pgc.models_thickness.get_thickness_model('Harkins/Jura'), a.properties['liquid_density'],
+                                                    a.properties['molar_mass'], t_limits=(0.3, 1.2))[0][0]['area']),
+            'dr_plot': (l_dr, pd_, lambda iso, a: pgc.dr_plot(iso)['pore_volume'],
+                        lambda a: dr_da_plots.da_plot_raw(pd_, l_dr, 77.355, a.properties['molar_mass'], a.properties['liquid_density'], exp=2)[0]),
+        }
+        history = ({'cross_sectional_area': 0.135}, {'molar_mass': 30.0}, {'liquid_density': 0.65}, {'cross_sectional_area': 0.3, 'liquid_density': 1.3})
+        for name, (ll, pp, entry, raw) in entries.items():
+            probs = []
+            try:
+                iso1, iso2 = mk('pgv_c14_gas_a', pp, ll), mk('pgv_c14_gas_b', pp, ll)
+                for a in (g1, g2):
+                    a.properties.update({'cross_sectional_area': 0.162 if a is g1 else 0.21, 'molar_mass': 28.0 if a is g1 else 44.0,
+                                         'liquid_density': 0.8 if a is g1 else 1.1})
+                steps = [('stock', {})] + [(f"after {h}", h) for h in history]
+                for label, change in steps:
+                    g1.properties.update(change)
+                    for iso, a in ((iso1, g1), (iso2, g2)):
+                        got, want = float(entry(iso, a)), float(raw(a))
+                        if not numpy.isclose(got, want, rtol=1e-9):
+                            probs.append(f"{a.name} {label}: entry point {got:.8g}, raw function with the current properties {want:.8g}")
+            except Exception as exc:
+                probs.append(f"{type(exc).__name__}: {exc}"[:200])
+            yield {'name': f"entry_uses_current_adsorbate_properties|{name}", 'ok': not probs, 'detail': '; '.join(probs[:3])}
+    finally:
+        for a in made:
+            try:
+                pygaps.ADSORBATE_LIST.remove(a)
+            except ValueError:
+                pass
+
+
+@replayer('c14.adsorbate')
+def _adsorbate(spec, model):
+    for r in entry_adsorbate_cases():
+        if r['name'] == spec['name']:
+            return {'confirmed': not r['ok'], 'observed': r['detail'], 'expected': 'entry point == raw function with the adsorbate properties at the time of the call'}
+    return {'confirmed': False, 'error': 'case not found'}
+
+
 @replayer('c14.branch')
 def _branch(spec, model):
     """alpha-s with the requested branch / reference branch: the reported alpha curve is n_ref(p) / n_ref(reducing pressure), both
